@@ -42,6 +42,9 @@ TEXT = {
     "C06": core("6/C06", "C06_Exact and NoOrphans: the countdown armed equals the LIFETIME answered (requested if < 3600 else default), Refresh(0) deletes at once, nothing survives its allocation; probed one second before and at every expiry."),
     "C07": core("6/C07", "C07_FullRestart: only successful CreatePermission/ChannelBind raise a countdown and then to the full timeout (the permission timeout on both paths); probed one tick before and at expiry for both orders of the two timeouts."),
     "C08": core("6/C08", "Invariants C08_Bijection, C08_Range and action property C08_Conflict400 over valid and invalid numbers and peers differing only in port."),
+    "C09": dict(engine="engine-A-walk", design_ref="6/C09", technique="TLA+ decision tables over message shapes (Dispatch.tla) + TLC + execution of every shape x state on the real endpoints with liveness probes, plus seeded byte-level mutation batches",
+                level_note="Level exploration: the spec decides classification and liveness per SHAPE; bytes inside a shape and the mutation batches are seeded samples. Trusted: TLC, Go, the in-memory network, the real-time watchdog.",
+                level_text="Every (shape, state) of the three tables is delivered to the real server (datagram and stream listeners) and to the real client's HandleInbound; the observed outcome class must equal the table's and the endpoint must answer a well-formed Binding transaction afterwards, from the same and from another party."),
     "C10": dict(engine="engine-A-walk", design_ref="6/C10", technique="TLA+ spec of the packetiser (Framer.tla) + TLC + replay of every (stream, segmentation) on proto.STUNConn and TCPAllocation.BindConnection",
                 level_note="Trusted: TLC, Go, the scripted net.Conn of the harness. Bounded by the stream catalogue and the cut alphabet listed in the evidence assumptions.",
                 level_text="Invariants C10_Prefix / C10_Prompt / C10_Progress are model-checked over all segmentations of the catalogue; every edge (one read of k bytes) is replayed on the real reader: frames must come out whole, in order, byte-identical, in the step their last byte arrives, junk must yield an error, zero-length successes are a violation."),
